@@ -8,6 +8,7 @@ import ArvVerif.Gen.FactsC06
 import ArvVerif.Model.C06
 import ArvVerif.Model.C06_Index
 import ArvVerif.Model.C06_Run
+import ArvVerif.Model.C06_GCSShape
 namespace ArvVerif.Tie.C06
 open ArvVerif.Facts.C06 ArvVerif.C06
 
@@ -203,101 +204,29 @@ theorem tie_clearTrashLists : clearTrashListsText =
 theorem tie_commitPulls : commitPullsCalls = ["bal.commitAsync",    "srv.CommitPulls"] := rfl
 theorem tie_commitTrash : commitTrashCalls = ["bal.commitAsync",    "srv.CommitTrash"] := rfl
 
-/-- `GetCurrentState`: the discovery-document error is returned; every worker (index fetch per
-device, collection processor, collection scan) that fails puts its error on `errs` and cancels;
-after `wg.Wait()` a non-empty `errs` is returned (`getCurrentStateFails`). -/
-theorem tie_getCurrentState_skeleton : getCurrentStateSkeleton =
-  ["defer",
-   "call cancel",
-   "defer",
-   "call c.DiscoveryDocument => dd,err",
-   "if err != nil {",
-   "return",
-   "}",
-   "for {",
-   "for {",
-   "if equiv == nil {",
-   "if mnt.DeviceID != \"\" {",
-   "}",
-   "}",
-   "}",
-   "}",
-   "for {",
-   "call wg.Add",
-   "go",
-   "func {",
-   "defer",
-   "call wg.Done",
-   "call mounts[0].KeepService.IndexMount => idx,err",
-   "if err != nil {",
-   "case {",
-   "}",
-   "case {",
-   "}",
-   "call cancel",
-   "return",
-   "}",
-   "call len",
-   "if len(errs) > 0 {",
-   "return",
-   "}",
-   "for {",
-   "call len",
-   "call len",
-   "call len",
-   "}",
-   "}",
-   "}",
-   "call wg.Add",
-   "go",
-   "func {",
-   "defer",
-   "call wg.Done",
-   "for {",
-   "call bal.addCollection => err",
-   "call len",
-   "if err != nil || len(errs) > 0 {",
-   "case {",
-   "}",
-   "case {",
-   "}",
-   "for {",
-   "}",
-   "call cancel",
-   "return",
-   "}",
-   "}",
-   "}",
-   "call wg.Add",
-   "go",
-   "func {",
-   "defer",
-   "call wg.Done",
-   "call EachCollection => err",
-   "func {",
-   "call len",
-   "if len(errs) > 0 {",
-   "return",
-   "}",
-   "return",
-   "}",
-   "func {",
-   "}",
-   "call close",
-   "if err != nil {",
-   "case {",
-   "}",
-   "case {",
-   "}",
-   "call cancel",
-   "}",
-   "}",
-   "call wg.Wait",
-   "call len",
-   "if len(errs) > 0 {",
-   "return",
-   "}",
-   "return"] := rfl
+/-! `GetCurrentState` — structural ties (they replace the former literal of the whole skeleton, which
+broke on any harmless rewrite of the device-table loops or of the logging): `GCS.shapeOf` cuts the
+regenerated skeleton into prologue / goroutine bodies / epilogue (`call len` tokens dropped). -/
+
+/-- The three goroutine literals, in source order, are exactly the index worker, the collection
+processor and the collection scanner the small-step model `Model/C06_GCS.lean` describes: error →
+non-blocking offer to `errs`, `cancel()`, return; `len(errs) > 0` tests; drain loop; `close(collQ)`. -/
+theorem tie_getCurrentState_goroutines :
+    (GCS.shapeOf getCurrentStateSkeleton).bodies = [GCS.workerBody, GCS.processorBody, GCS.scannerBody] := by
+  decide +kernel
+
+/-- Outside the goroutines, from the first `go` on: the two further `wg.Add`, `wg.Wait`, then
+`if len(errs) > 0 { return <-errs }` and `return nil` — nothing else. -/
+theorem tie_getCurrentState_epilogue : (GCS.shapeOf getCurrentStateSkeleton).epi = GCS.epilogue := by
+  decide +kernel
+
+/-- Before the first goroutine: the discovery-document request is followed by `if err != nil { return }`
+(`getCurrentStateFails`), and no goroutine is started, waited for, nor `collQ` closed there. -/
+theorem tie_getCurrentState_prologue :
+    GCS.hasBlock GCS.ddGuard (GCS.shapeOf getCurrentStateSkeleton).pro = true ∧
+    ((GCS.shapeOf getCurrentStateSkeleton).pro.filter
+      (fun t => t == "go" || t == "call wg.Wait" || t == "call close")) = [] := by
+  decide +kernel
 
 /-- `CheckSanityLate` (`checkSanityLateFails`) -/
 theorem tie_checkSanityLate_conds : checkSanityLateConds =
